@@ -5,7 +5,8 @@ the safe stream and the probe that triggers it.  `python3 gen/findings.py` re-ru
 both ways (go run / warun run) and reports whether each recorded divergence is still present -- so a
 `fix:` commit in /repo shows up as "GONE" and the corresponding safe-stream rule can be lifted.
 
-Tree when recorded: /repo at 3d2ee37 (snapshot 7d318b1 + 3 fix: commits), go1.23.5.
+Tree when recorded: /repo at 3d2ee37 (snapshot 7d318b1 + 3 fix: commits), go1.23.5; re-verified at cbe9ee5
+(13 fix: commits): every entry still reproduces except #13 (fixed by c6e0763).
 kind: D = genuine Wa defect (accepts the program and misbehaves, or aborts on a valid program)
       L = language-level difference WaGo vs current Go (same text, different meaning/acceptance)
       G = generator problem (Go leaves the behaviour open); fixed in the generator, kept as a probe
@@ -193,7 +194,7 @@ func main() {
          root='runtime/string.wa:48 string_Comp compares decoded runes via next_rune and, when either side reports '
               'ok=false, falls back to comparing the lengths; Go specifies byte-wise comparison. Also orders string map keys.',
          safe='see 11.'),
-    dict(id=13, kind='D', probe='probe:nested_closure_capture',
+    dict(id=13, kind='D', probe='(none: fixed)', fixed_by='c6e0763 (found independently by another check while this list was built)',
          title='func literal nested in a func literal and capturing the outer literal\'s locals: compiler aborts',
          program='''package main
 
@@ -209,7 +210,7 @@ func main() {
          go='2 4',
          root='compile_func.go ~1307: the closure-environment struct `<fn>.$warpdata` of the inner literal is registered '
               'twice. The same factory as a top-level func works; a nested literal capturing only main\'s variables works.',
-         safe='closure factories are top-level functions.'),
+         safe='was: closure factories are top-level functions; lifted after c6e0763 (the safe stream now emits both forms).'),
     dict(id=14, kind='D', probe='probe:iface_to_iface_assign',
          title='implicit interface -> smaller interface conversion is rejected',
          program='''package main
